@@ -152,22 +152,39 @@ def check_dir(prog: Program, res: Result) -> None:
     R = "C05-dir"
     fi = prog.func(f"{EM}:make_pafs")
     res.touch(fi)
-    uv = [s for s in astq.assignments_to(fi.node, "unit_vectors") if isinstance(s, ast.Assign)]
-    ok = len(uv) == 2
-    if ok:
-        uv = sorted(uv, key=lambda s: s.lineno)
-        ok = norm(uv[0].value) == "edge_destination - edge_source"
-        v = uv[1].value
-        ok = ok and isinstance(v, ast.BinOp) and isinstance(v.op, ast.Div) and norm(v.left) == "unit_vectors" and "torch.norm(unit_vectors" in norm(v.right) \
-            and "dim=-1" in norm(v.right) and "keepdim=True" in norm(v.right)
-    res.ob(R, ok, fi.qualname, "unit vector = (destination - source) / its norm over the coordinate axis",
+    # read the returned field after expansion: (unsqueeze(W, -1) * expand_to_rank(U, 4)).permute(2, 3, 0, 1) with
+    # W = make_edge_maps(...) and U = D / norm(D, dim=-1, keepdim=True), D = edge_destination - edge_source
+    rets_ = [n for n in walk_function(fi.node) if isinstance(n, ast.Return) and n.value is not None]
+    full = astq.expand_at(fi.node, rets_[0].value, rets_[0]) if len(rets_) == 1 else None
+    ok_layout = isinstance(full, ast.Call) and isinstance(full.func, ast.Attribute) and full.func.attr == "permute" and [astq.const_value(a) for a in full.args] == [2, 3, 0, 1]
+    prod = full.func.value if ok_layout else None
+    ok_prod = isinstance(prod, ast.BinOp) and isinstance(prod.op, ast.Mult)
+    U = W = None
+    if ok_prod:
+        for side in (prod.left, prod.right):
+            if "make_edge_maps(" in norm(side):
+                W = side
+            else:
+                U = side
+    ok_u = False
+    if U is not None:
+        u = U
+        if isinstance(u, ast.Call) and norm(u.func).split(".")[-1] == "expand_to_rank" and u.args:
+            u = u.args[0]
+        if isinstance(u, ast.BinOp) and isinstance(u.op, ast.Div) and norm(u.left) == "edge_destination - edge_source":
+            nr = u.right
+            if isinstance(nr, ast.Call) and norm(nr.func).split(".")[-1] == "norm":
+                arg0 = nr.args[0] if nr.args else (nr.func.value if isinstance(nr.func, ast.Attribute) else None)
+                if isinstance(nr.func, ast.Attribute) and norm(nr.func.value) not in ("torch", "torch.linalg"):
+                    arg0 = nr.func.value
+                kw = {k.arg: astq.const_value(k.value) for k in nr.keywords}
+                ok_u = arg0 is not None and norm(arg0) == "edge_destination - edge_source" and kw.get("dim") in (-1,) and kw.get("keepdim") is True
+    res.ob(R, ok_u, fi.qualname, "unit vector = (destination - source) / its norm over the coordinate axis",
            "the direction is not (edge_destination - edge_source) normalised over the last axis: the field points the wrong way or is not unit length", fi.where,
-           sample=[short(s.value, 60) for s in uv] if uv else None)
-    pf = [s for s in astq.assignments_to(fi.node, "pafs") if isinstance(s, ast.Assign)]
-    pf = sorted(pf, key=lambda s: s.lineno)
-    ok = len(pf) == 2 and isinstance(pf[0].value, ast.BinOp) and isinstance(pf[0].value.op, ast.Mult) and "edge_confidence_map" in norm(pf[0].value.left) \
-        and "unit_vectors" in norm(pf[0].value.right) and norm(pf[1].value) == "pafs.permute(2, 3, 0, 1)"
-    res.ob(R, ok, fi.qualname, "field = weight * unit vector, laid out as (edges, 2, H, W)", "the PAF is not weight x unit-vector permuted to (edges, xy, height, width)", fi.where)
+           sample=short(U, 90) if U is not None else None)
+    ok_w = W is not None and "unsqueeze" in norm(W)
+    res.ob(R, ok_layout and ok_prod and ok_w and U is not None, fi.qualname, "field = weight * unit vector, laid out as (edges, 2, H, W)",
+           "the PAF is not weight x unit-vector permuted to (edges, xy, height, width)", fi.where)
     mk = [c for c, q in prog.calls_in(fi) if q == f"{EM}:make_edge_maps"]
     ok = len(mk) == 1 and {k.arg: norm(k.value) for k in mk[0].keywords} == {"xv": "xv", "yv": "yv", "edge_source": "edge_source", "edge_destination": "edge_destination", "sigma": "sigma"}
     res.ob(R, ok, fi.qualname, "weight computed for the same source/destination", "make_edge_maps is not called with the same grid, source and destination", fi.where)
@@ -191,8 +208,13 @@ def check_dir(prog: Program, res: Result) -> None:
     for q in (f"{EM}:generate_pafs", f"{EM}:PartAffinityFieldsGenerator.__iter__"):
         g = prog.func(q)
         res.touch(g)
-        rs = [c for c in walk_function(g.node) if isinstance(c, ast.Call) and norm(c.func) == "pafs.reshape"]
-        ok = len(rs) == 1 and [norm(a) for a in rs[0].args] == ["n_edges * 2", "grid_height", "grid_width"]
+        rs = [c for c in walk_function(g.node) if isinstance(c, ast.Call) and isinstance(c.func, ast.Attribute) and c.func.attr in ("reshape", "view") and len(c.args) == 3
+              and "n_edges" in norm(c.args[0])]
+        ok = len(rs) == 1 and [norm(a).replace("2 * n_edges", "n_edges * 2") for a in rs[0].args] == ["n_edges * 2", "grid_height", "grid_width"]
+        if ok:
+            # what is flattened is the make_multi_pafs result
+            srcx = astq.expand_at(g.node, rs[0].func.value, enclosing_stmt(rs[0]))
+            ok = "make_multi_pafs(" in norm(srcx)
         res.ob(R, ok, g.qualname, "channels flattened edge-major (edge0.x, edge0.y, edge1.x, ...)", "the (edges, 2) axes are not flattened as edges*2", g.where)
         mm = [c for c, qq in prog.calls_in(g) if qq == f"{EM}:make_multi_pafs"]
         gp = [c for c, qq in prog.calls_in(g) if qq == f"{EM}:get_edge_points"]
